@@ -51,7 +51,24 @@ CHECKS = {
 PENDING_REASON = 'check not built yet (work in progress in this session; see DESIGN.md section 7 for the plan)'
 
 
+def fill_from_table():
+  import sys
+  sys.path.insert(0, os.path.dirname(os.path.abspath(__file__)))
+  from props import _table
+  for pid, t in _table.TABLE.items():
+    if pid in CHECKS:
+      continue
+    CHECKS[pid] = dict(
+        category=t['level'],
+        text=t['explanation'] + '; stand-ins: ' + '; '.join('%s (%s)' % b for b in t['bounded']),
+        note='clauses served only by a bounded stand-in are not proved (bounds reported in the evidence); trusted: z3, '
+             'the pvc VC generator, CPython as reference semantics for the oracles',
+        technique=TECH + '; bounded run-time-checked contracts as stand-ins where no contract is discharged',
+        ref='DESIGN.md 7 ' + pid)
+
+
 def main():
+  fill_from_table()
   here = os.path.dirname(os.path.abspath(__file__))
   checks = []
   for pid in ALL:
